@@ -50,6 +50,9 @@ Section SpecProofs.
   Lemma s_get_hit k0 v0 hi k : cmp c k0 k = Eq -> s_get c k ((k0, v0) :: hi) = Some v0.
   Proof. intros E. unfold s_get. cbn. unfold key_eq. cbn. rewrite E. reflexivity. Qed.
 
+  Lemma s_get_hit_e e hi k : cmp c (fst e) k = Eq -> s_get c k (e :: hi) = Some (snd e).
+  Proof. destruct e as (k0, v0). apply s_get_hit. Qed.
+
   Lemma s_get_miss hi k : Forall (e_gt k) hi -> s_get c k hi = None.
   Proof.
     intros H. unfold s_get. rewrite find_none; [reflexivity|].
@@ -107,4 +110,102 @@ Section SpecProofs.
 
   Lemma s_len_map {A} (f : A -> bytes * bytes) l : s_len (map f l) = Z.of_nat (length l).
   Proof. unfold s_len. now rewrite map_length. Qed.
+
+  (* ---- the visible part of the map and the two kinds of cursor query ---- *)
+  Definition start_ok (sl : option range) (k : bytes) : bool :=
+    match sl with Some (Some s, _) => negb (ltb c k s) | _ => true end.
+  Definition lim_ok (sl : option range) (k : bytes) : bool :=
+    match sl with Some (_, Some l) => ltb c k l | _ => true end.
+
+  Lemma in_range_split sl k : in_range c sl k = start_ok sl k && lim_ok sl k.
+  Proof. destruct sl as [(s, l)|]; cbn; [|reflexivity]. destruct s, l; reflexivity. Qed.
+
+  Lemma hd_error_filter {A} (f : A -> bool) l : hd_error (filter f l) = find f l.
+  Proof. induction l as [|x l IH]; cbn; [reflexivity|]. destruct (f x); cbn; auto. Qed.
+
+  Lemma find_filter {A} (f g : A -> bool) l : find g (filter f l) = find (fun x => f x && g x) l.
+  Proof.
+    induction l as [|x l IH]; cbn; [reflexivity|]. destruct (f x); cbn; [|exact IH].
+    destruct (g x); auto.
+  Qed.
+
+  Lemma find_last_filter {A} (f g : A -> bool) l :
+    find_last g (filter f l) = find_last (fun x => f x && g x) l.
+  Proof.
+    induction l as [|x l IH]; cbn; [reflexivity|]. destruct (f x); cbn; rewrite <- IH; [reflexivity|].
+    destruct (find_last g (filter f l)); reflexivity.
+  Qed.
+
+  Lemma find_last_none {A} (f : A -> bool) l : Forall (fun x => f x = false) l -> find_last f l = None.
+  Proof. induction 1 as [|x l Hx _ IH]; cbn; [reflexivity|]. now rewrite IH, Hx. Qed.
+
+  Lemma find_last_snoc {A} (f : A -> bool) l x :
+    find_last f (l ++ [x]) = if f x then Some x else find_last f l.
+  Proof.
+    induction l as [|y l IH]; cbn [app find_last].
+    - destruct (f x); reflexivity.
+    - rewrite IH. destruct (f x); reflexivity.
+  Qed.
+
+  Lemma lim_ok_mono sl a b : lt c a b -> lim_ok sl b = true -> lim_ok sl a = true.
+  Proof.
+    destruct sl as [(s, [l|])|]; cbn; auto. unfold ltb. intros Hab Hb.
+    destruct (cmp c b l) eqn:E; try discriminate.
+    pose proof (OrderProofs.lt_trans c cok _ _ _ Hab E) as H. unfold lt in H. now rewrite H.
+  Qed.
+
+  Lemma start_ok_mono sl a b : lt c a b -> start_ok sl a = true -> start_ok sl b = true.
+  Proof.
+    destruct sl as [([s|], l)|]; cbn; auto. unfold ltb. intros Hab Ha.
+    destruct (cmp c b s) eqn:E; auto.
+    pose proof (OrderProofs.lt_trans c cok _ _ _ Hab E) as H. unfold lt in H. rewrite H in Ha. discriminate.
+  Qed.
+
+  (* forward query: the answer is the first entry of the high part, if it is below the limit *)
+  Lemma fwd_query sl (f : bytes * bytes -> bool) lo hi :
+    smap_sorted (lo ++ hi) ->
+    Forall (fun e => in_range c sl (fst e) && f e = false) lo ->
+    Forall (fun e => f e = true /\ start_ok sl (fst e) = true) hi ->
+    find f (vis c sl (lo ++ hi)) =
+      match hi with [] => None | e :: _ => if lim_ok sl (fst e) then Some e else None end.
+  Proof.
+    intros HS Hlo Hhi. unfold vis. rewrite find_filter. rewrite find_app_none by exact Hlo.
+    destruct hi as [|e hi]; [reflexivity|].
+    apply sorted_app in HS as (_ & HS & _). destruct HS as (He & _).
+    inversion Hhi as [|? ? (Hf & Hs) Hhi']; subst.
+    cbn [find]. rewrite in_range_split, Hf, Hs. cbn [andb].
+    destruct (lim_ok sl (fst e)) eqn:El; cbn [andb]; [reflexivity|].
+    apply find_none. apply Forall_forall. intros e' He'.
+    rewrite in_range_split.
+    destruct (lim_ok sl (fst e')) eqn:El'; [|now rewrite andb_false_r].
+    rewrite Forall_forall in He. rewrite (lim_ok_mono sl _ _ (He e' He') El') in El. discriminate.
+  Qed.
+
+  (* backward query: the answer is the last entry of the low part, if it is not below the start *)
+  Lemma bwd_query_nil sl (f : bytes * bytes -> bool) hi :
+    Forall (fun e => in_range c sl (fst e) && f e = false) hi ->
+    find_last f (vis c sl hi) = None.
+  Proof. intros H. unfold vis. rewrite find_last_filter. now apply find_last_none. Qed.
+
+  Lemma bwd_query sl (f : bytes * bytes -> bool) lo e hi :
+    smap_sorted ((lo ++ [e]) ++ hi) ->
+    Forall (fun e => in_range c sl (fst e) && f e = false) hi ->
+    Forall (fun e => f e = true /\ lim_ok sl (fst e) = true) (lo ++ [e]) ->
+    find_last f (vis c sl ((lo ++ [e]) ++ hi)) = if start_ok sl (fst e) then Some e else None.
+  Proof.
+    intros HS Hhi Hlo. unfold vis. rewrite find_last_filter. rewrite find_last_app_none by exact Hhi.
+    rewrite find_last_snoc.
+    apply Forall_app in Hlo as (Hlo & He). inversion He as [|? ? (Hf & Hl) _]; subst.
+    rewrite in_range_split, Hf, Hl, andb_true_r. cbn [andb].
+    destruct (start_ok sl (fst e)) eqn:Es; [reflexivity|].
+    apply find_last_none. apply Forall_forall. intros e' He'.
+    rewrite in_range_split.
+    destruct (start_ok sl (fst e')) eqn:Es'; [|reflexivity].
+    apply sorted_app in HS as (HS & _). apply sorted_app in HS as (_ & _ & HS).
+    rewrite Forall_forall in HS. specialize (HS e' He'). inversion HS; subst.
+    rewrite (start_ok_mono sl _ _ H1 Es') in Es. discriminate.
+  Qed.
+
+  Lemma find_true_hd {A} (l : list A) : find (fun _ => true) l = hd_error l.
+  Proof. destruct l; reflexivity. Qed.
 End SpecProofs.
